@@ -285,9 +285,10 @@ impl<'a> AuthOpts<'a> {
 
     /// Sets a reason string property.
     ///
-    pub fn reason_string(mut self, val: &'a str) {
+    pub fn reason_string(mut self, val: &'a str) -> Self {
         self.builder
             .reason_string(ReasonStringRef::from(UTF8StringRef(val)));
+        self
     }
 
     /// Sets the name of the authentication method used for extended authorization.
